@@ -26,7 +26,7 @@ import (
 var logw io.Writer = os.Stderr
 
 // split of the case index space: out of every 23 cases 20 are workload 1 and 3
-// are workload 2 (20 000 + 3 000 quick, 2 000 000 + 300 000 thorough).
+// are workload 2 (20 000 + 3 000 quick, 1 000 000 + 150 000 thorough).
 const (
 	period = 23
 	w1per  = 20
@@ -67,7 +67,7 @@ func Prop() *core.Prop {
 		},
 		Cases: func(tier string) int {
 			if tier == "thorough" {
-				return 2300000
+				return 1150000
 			}
 			return 23000
 		},
